@@ -196,13 +196,51 @@ def qlit(x):
     return '(%d # %d)' % (fr.numerator, fr.denominator)
 
 
+def fme(x):
+    """binary64 -> (mantissa, exponent) with x == m * 2**e exactly"""
+    import math
+    x = float(x)
+    if x == 0.0 or x != x or x in (float('inf'), float('-inf')):
+        return (0, 0)
+    m, e = math.frexp(x)
+    m = int(m * (1 << 53)); e -= 53
+    while m % 2 == 0:
+        m //= 2; e += 1
+    return (m, e)
+
+
+def flit(x):
+    """Coq Q term equal to the float exactly, cheap to parse: fl m e (Lib/Show.v)"""
+    m, e = fme(x)
+    return '(fl (%d) (%d))' % (m, e)
+
+
 def ostr(s):
     if s is None:
         return 'None'
     return '(Some "%s")' % s.replace('"', '""')
 
 
-def run_coq_cases(name, header, show_def, terms, per_file=400, timeout=900):
+def parse_nested(txt):
+    """parse Coq's printing of nested lists of integers: [[1; (-2)]; []] -> python lists"""
+    txt = re.sub(r'\((-\d+)\)', r'\1', txt.replace('%Z', ''))
+    i = txt.index('[')
+    toks = re.findall(r'\[|\]|-?\d+', txt[i:])
+    stack = [[]]
+    for t in toks:
+        if t == '[':
+            stack.append([])
+        elif t == ']':
+            done = stack.pop()
+            stack[-1].append(done)
+            if len(stack) == 1:
+                break
+        else:
+            stack[-1].append(int(t))
+    return stack[0][0]
+
+
+def run_coq_cases(name, header, show_def, terms, per_file=400, timeout=900, nested=False):
     """Evaluate `show_def` (a Coq function name or term, : case -> (Z*Z*Z) or similar tuple of integers) on every
     term by vm_compute, in parallel files. Returns a list (same order) of tuples of ints, or raises RuntimeError.
     Each file prints ONE list of integer tuples; parsing is by regex over the whole output (robust to line wrapping)."""
@@ -238,9 +276,12 @@ def run_coq_cases(name, header, show_def, terms, per_file=400, timeout=900):
             for _, q in running:
                 q.kill()
             raise RuntimeError('coqc failed on %s: %s' % (files[i][0], (err or out)[-1500:]))
-        flat = re.sub(r'\((-\d+)\)', r'\1', out.replace('%Z', '').replace('\n', ' '))
-        tup = re.findall(r'\(((?:-?\d+)(?:\s*,\s*-?\d+)+)\)', flat)
-        vals = [tuple(int(x) for x in t.split(',')) for t in tup]
+        if nested:
+            vals = parse_nested(out.replace('\n', ' '))
+        else:
+            flat = re.sub(r'\((-\d+)\)', r'\1', out.replace('%Z', '').replace('\n', ' '))
+            tup = re.findall(r'\(((?:-?\d+)(?:\s*,\s*-?\d+)+)\)', flat)
+            vals = [tuple(int(x) for x in t.split(',')) for t in tup]
         if len(vals) != files[i][1]:
             raise RuntimeError('coqc output of %s: expected %d results, parsed %d\n%s' % (files[i][0], files[i][1], len(vals), out[:500]))
         results[i] = vals
